@@ -151,6 +151,69 @@ def job_interior(job, cls, nx):
                   replay=(replay_mesh, {"cls": cls, "nx": nx}), note="canonical-form identity" if not bad else None)
 
 
+def replay_boundary(model, cls="SinglePhaseReservoir", nx=4):
+    """Real runs (captured systems): the frac-face row is the interior row with the documented ghost value, the initial
+    state is uniform, and x_0 stays in [m_f, (m_f + x_1)/2].  Runs: the model's step (and scaled copies, large mesh
+    ratios included) with a duck-typed fluid carrying the model's m_f, m_i and diffusivity, and the shipped gas table
+    at frac-face pressures far from and close to the initial pressure."""
+    import numpy as np
+    from .c01 import _DuckFluid
+    from .c04 import real_capture, _real_fluid
+    dt0 = float(model.get("dt1") or 1e-2)
+    runs = []
+    for scale in (1.0, 1e-3, 30.0, 1e3, 1e5):
+        t = np.array([0.0, dt0 * scale, 3 * dt0 * scale])
+        if cls == "IdealReservoir":
+            runs.append((f"times {t.tolist()}", None, None, *real_capture(cls, nx, t, None, None), t))
+            continue
+        duck = _DuckFluid(model, 1)
+        duck._mf = [duck._mf[0]] * 3
+        runs.append((f"times {t.tolist()}, m_f={duck._mf[0]}, m_i={duck.m_i}", duck, duck._mf[0], *real_capture(cls, nx, t, duck, None), t))
+    if cls != "IdealReservoir":
+        from bluebonnet.flow import reservoir as rr
+        fluid = _real_fluid()
+        for pf in (1000.0, 4400.0, 7000.0):
+            for scale in (1.0, 1e4):
+                t = np.array([0.0, 1e-3, 3e-3]) * scale
+                calls = []
+                lin = rr.sparse.linalg
+                orig = lin.spsolve
+
+                def ws(A, b, *a, **k):
+                    x = orig(A, b, *a, **k)
+                    calls.append({"A": A.toarray(), "b": np.array(b, float), "x": np.array(x, float)})
+                    return x
+                try:
+                    lin.spsolve = ws
+                    res = rr.SinglePhaseReservoir(max(nx, 20), pf, 8000.0, fluid)
+                    res.simulate(t)
+                finally:
+                    lin.spsolve = orig
+                runs.append((f"shipped gas table, p_f={pf}, p_i=8000, times {t.tolist()}", fluid, float(fluid.m_scaled_func(pf)), res, calls, t))
+    problems = []
+    for label, fluid, mf, res, calls, t in runs:
+        pp = np.asarray(res.pseudopressure, float)
+        m_i = 1.0 if fluid is None else float(fluid.m_i)
+        init = np.full(pp.shape[1], m_i)
+        if fluid is not None:
+            init[0] = mf
+        if np.any(np.abs(pp[0] - init) > 1e-12 * m_i):
+            problems.append(f"{label}: initial state {pp[0].tolist()[:4]}.. is not uniform at {m_i!r} with the frac-face node at {mf!r}")
+        for i, c in enumerate(calls[: len(t) - 1]):
+            A, b = c["A"], c["b"]
+            k0 = -A[0, 1]
+            want_b = pp[i][0] if fluid is None else mf * (1 + k0)
+            if abs(A[0, 0] - (1 + 2 * k0)) > 1e-9 * (1 + 2 * abs(k0)) or abs(b[0] - want_b) > 1e-9 * (abs(want_b) + 1e-300):
+                problems.append(f"{label}: step {i} frac-face row diag {A[0, 0]!r}, off-diag {A[0, 1]!r}, rhs {b[0]!r}: not the interior row with ghost value "
+                                f"{0.0 if fluid is None else mf!r} (expected diag {1 + 2 * k0!r}, rhs {want_b!r})")
+                break
+            x = pp[i + 1]
+            if fluid is not None and x[1] >= mf and not (mf * (1 - 1e-9) - 1e-300 <= x[0] <= (mf + x[1]) / 2 * (1 + 1e-9)):
+                problems.append(f"{label}: level {i + 1}: x_0 = {x[0]!r} outside [m_f, (m_f + x_1)/2] = [{mf!r}, {(mf + x[1]) / 2!r}]")
+                break
+    return bool(problems), {"what": "; ".join(problems[:2]) or "frac-face row and initial state as documented", "inputs": {"runs": len(runs)}}
+
+
 def job_boundary(job, nx):
     mod = load_reservoir()
     job.encoded(mod, "IdealReservoir.simulate", "SinglePhaseReservoir.simulate", "_build_matrix")
@@ -172,7 +235,7 @@ def job_boundary(job, nx):
             r, fluid, t, calls = pr.value
             rows = rows_of(r)
             A, b, x = calls[0]["A"].rows, calls[0]["b"], calls[0]["x"]
-            rp = (replay_rows, {"cls": cls, "nx": nx, "nt": 2})
+            rp = (replay_boundary, {"cls": cls, "nx": nx})
             job.prove(f"boundary/{cls}[nx={nx}]/reach[path{k}]", pr.pc, expect="sat", elim=True, abstract=False)
             # L4 initial state
             if fluid is None:
